@@ -57,6 +57,16 @@ def project(rng):
     # one file name in four places of differing status (plain, per-linter-ignored directory, test directory, source root)
     for d in ("pkg", "pkg/gen", "tests", "src"):
         files[d + "/calc.py"] = "def gross(net, log):\n    print(net)\n    log.info(f\"net {net}\")\n    return net * 4711 + 2599\n"
+    # findings that in-source directives suppress (every form, several rules, and a duplicated block for dry): a table of directives keyed by
+    # a differently spelled path would bring them back under some spellings only
+    dup = "".join("    sup_val_%d = sup_compute_%d(alpha, beta) + sup_offset_%d\n" % (k, k, k) for k in range(5))
+    for nm in ("one", "two"):
+        files["pkg/suppressed_%s.py" % nm] = (
+            "def sup_%s(alpha, beta):\n    # thailint: ignore-start dry\n%s    # thailint: ignore-end\n    print(alpha)  # thailint: ignore[improper-logging]\n"
+            "    # thailint: ignore-next-line[magic-numbers]\n    return alpha * 9393\n\n\n"
+            "def sup_same_%s(alpha, beta):\n%s    return beta * 9494  # thailint: ignore[magic-numbers]\n" % (nm, dup, nm, dup.replace("sup_", "sup2_").replace("    sup2_val_0", "    sup2_val_0", 1)))
+    files["pkg/suppressed_one.py"] = files["pkg/suppressed_one.py"].replace("def sup_same_one(alpha, beta):\n", "def sup_same_one(alpha, beta):  # thailint: ignore[dry]\n", 1)
+    files["pkg/suppressed_file.py"] = "# thailint: ignore-file[magic-numbers]\ndef sup_file(a):\n    print(a)\n    return a * 9595\n"
     # enough files for --parallel to really use its worker pool (it falls back to the sequential path below 2 x workers files)
     for i in range(14):
         files["pkg/fill/f%02d.py" % i] = "def fill_%d(a):\n    print(a)\n    return a * %d\n" % (i, 10007 + i)
